@@ -122,6 +122,7 @@ PyCall(f, a) ==
            [] f[2] = "const" -> f[3]
            [] f[2] = "pair"  -> <<"l", <<f[3], a>>>>
            [] f[2] = "dict"  -> IF a[1] = "l" THEN DictOf(a[2], 1, <<>>) ELSE Bad
+           [] f[2] = "same"  -> a                                        \* an observing callback: returns its argument
            [] f[2] = "wrap"  -> <<"l", <<a>>>>
            [] f[2] = "boomeq" -> IF a = f[3] THEN Bad ELSE <<"t">>      \* user code that raises on one value
            [] OTHER -> Bad
